@@ -493,3 +493,37 @@ Proof.
   - destruct r as [rd|[]|]; try reflexivity. now destruct Hr.
   - subst x. exact IH.
 Qed.
+
+(* the length varint as every encoder writes it (minimal form): no hypothesis left *)
+Theorem stream_bytes_enc head P j stream mode a b o tagln hdr :
+  let vb := enc_varint (lenN P) in
+  (match stream with
+   | None => (length (vb ++ P) <= j)%nat
+   | Some st => shape st (skipn j (vb ++ P))
+   end) ->
+  length head = (o + tagln)%nat ->
+  lenN P <= max_int64 -> a < two64 -> b < two64 ->
+  let res := range_with (PlOk (lenN P) hdr) (SFound o tagln ty_bytes) (head ++ firstn j (vb ++ P)) stream mode a b in
+  match range_spec mode a b (lenN P) with
+  | SpOk off ln => exists r, res = ShOk r /\ drain r = firstnN ln (skipnN off P)
+  | SpUnsat => res = ShErr EOutOfRange
+  | SpBadMode => res = ShErr EOther
+  end.
+Proof.
+  intros vb Hst Hh Hbig Ha Hb.
+  apply (stream_bytes vb (lenN P)); try assumption.
+  - intros r. apply enc_varint_parses. unfold max_int64 in Hbig. lia.
+  - apply enc_varint_cut.
+  - pose proof (enc_varint_len (lenN P)). unfold max_varint_len. exact H.
+Qed.
+
+Theorem layers_agree :
+  (forall tree blob, final_in_cache tree ->
+     wc_range true tree = tree /\ shard_range (Some (wc_range true tree)) blob = tree) /\
+  (forall blob (wc_has_cache : bool),
+     shard_range (if wc_has_cache then Some (wc_range false (ShErr EOther)) else None) blob = blob) /\
+  (forall before after r, Forall (fun x => x = ShErr ENotFound) before -> found r ->
+     engine_range (before ++ r :: after) = r).
+Proof.
+  split; [exact layers_agree_cache|]. split; [exact layers_agree_blob|exact layers_agree_engine].
+Qed.
